@@ -218,7 +218,7 @@ def analyse(ctx, C, fn, rep):
                     unk.append('cannot prove: %s' % desc)
     from props import C04_content, C04_search
     try:
-        C04_search.check(C, fn, name, dom, loop_leaves, facts0, rep)
+        C04_search.check(C, fn, name, dom, loop_leaves, facts0, rep, leaves)
     except Unsupported as e:
         rep.unk('B9', name, str(e), loc=loc)
     try:
